@@ -9,5 +9,11 @@ else
   /venv/bin/pip install --no-index --find-links /opt/veriftools/wheels --target "$HERE/.deps" hypothesis || exit 1
 fi
 PYTHONPATH="$HERE/.deps" /venv/bin/python -c "import hypothesis; print('hypothesis', hypothesis.__version__)" || exit 1
+# atheris (libFuzzer for Python) for the coverage-guided campaigns of C01 / C05: optional (the checks note its absence and go on)
+if ! PYTHONPATH="$HERE/.deps" /venv/bin/python -c "import atheris" 2>/dev/null; then
+  mkdir -p "$HERE/.deps"
+  /venv/bin/pip install -q --no-index --find-links /opt/veriftools/wheels --target "$HERE/.deps" atheris || echo "atheris not installable: campaigns will be skipped"
+fi
+PYTHONPATH="$HERE/.deps" /venv/bin/python -c "import atheris; print('atheris ok')" || true
 mkdir -p "$HERE/evidence"
 exit 0
